@@ -28,13 +28,33 @@ theorem auth_fuel_enough (c : Conn) (n : Nat) : auth c (n + 3) = auth c 3 :=
   Lemmas.ConnC13.auth_fuel_enough c n
 
 /-- a disconnected connection object can be connected again: the call is accepted whenever the
-    API's own preconditions hold -/
+    API's own preconditions hold — a JID is set, and its domain part is not empty and does not
+    start with a dot (a JID without a usable domain is refused by `xmpp_connect_client` since
+    c81bf46) -/
 theorem reconnectable (jid pass : Option Bytes) (cert : Bool) (flags : Nat) (ops : List Op) :
     let c := exec (fresh jid pass cert flags) ops
     c.state = .disconnected → c.jid.isSome → c.tcpFail = false →
+    (∀ j, c.jid = some j → (Jid.domain j).head? ≠ none ∧ (Jid.domain j).head? ≠ some 46) →
       (connectClient c).2 = 0 ∧ (connectClient c).1.state = .connecting ∧
       (connectClient c).1.queue = [] :=
   Lemmas.ConnC13.reconnectable jid pass cert flags ops
+
+set_option maxRecDepth 20000 in
+/-- non-vacuity of `reconnectable`: after a complete attempt (connect, stream end) with the normal
+    JID user@example.org the hypotheses hold and the object is connected again -/
+example :
+    let c := exec (fresh (some (b "user@example.org")) (some (b "secret")) false 0)
+      [.connect .client, .run .none, .run (.data [.open_ (b "stream") (some (b "s1")), .end_]), .run .none]
+    c.state = .disconnected ∧ c.jid.isSome = true ∧ c.tcpFail = false ∧
+    (c.jid.map fun j => (Jid.domain j).head?) = some (some 101) ∧
+    (connectClient c).2 = 0 ∧ (connectClient c).1.state = .connecting := by decide
+
+/-- counterexample to the statement without the domain precondition (a JID without a usable domain
+    is refused by xmpp_connect_client since c81bf46): JID "" -/
+example :
+    let c := exec (fresh (some []) none false 0) []
+    c.state = .disconnected ∧ c.jid.isSome = true ∧ c.tcpFail = false ∧ (connectClient c).2 = xmppEInvOp := by
+  decide
 
 /-- releasing ends a running attempt with its (single) disconnect notification -/
 theorem release_disconnects (c : Conn) : (release c).state = .disconnected :=
